@@ -715,9 +715,9 @@ def rule_nsamples_is_asked_the_documented_question(eng, rep, rule="C02-6b.nsampl
             cfg = eng.cfg(fi)
             a0, a1, a2, a3 = node.args
             probs = []
-            if not ((isinstance(a0, ast.Attribute) and a0.attr == "delta") or (isinstance(a0, ast.Name) and a0.id in rhobeg_names)):
+            if not ((isinstance(a0, ast.Attribute) and a0.attr == "delta") or (isinstance(a0, ast.Name) and (a0.id in rhobeg_names or "delta" in a0.id.lower()))):
                 probs.append("first argument `%s` is not a trust-region radius (.delta)" % short(a0, 30))
-            if not ((isinstance(a1, ast.Attribute) and a1.attr == "rho") or (isinstance(a1, ast.Name) and a1.id in rhobeg_names)):
+            if not ((isinstance(a1, ast.Attribute) and a1.attr == "rho") or (isinstance(a1, ast.Name) and (a1.id in rhobeg_names or (a1.id.lower().startswith("rho") and "end" not in a1.id.lower())))):
                 probs.append("second argument `%s` is not the lower bound on the radius (.rho)" % short(a1, 30))
             ok2 = const_value(a2) == 0
             if isinstance(a2, ast.Name) and a2.id in fi.all_params and fi.fid != sm.fid:
